@@ -329,6 +329,30 @@ def behavioural():
     return out
 
 
+def behavioural_names(quick, seed=1):
+    """generated transpiled blocks with adversarial port / variable names (header by rtl_generation, body by the transpiler)"""
+    from props import c03_beh
+    import py4hw.rtl_generation as R
+    spec = spec_reserved_words()
+    extra = ['logic', 'bit', 'int', 'priority', 'type', 'final', 'local', 'static', 'var', 'string', 'byte', 'unique', 'this', 'new', 'do']
+    other = ['w_a', 'i_x', 'reserved_wire', 'reserved_', 'w_', 'a1', 'clk', 'reset', 'rq', 'acc', 't', 'pa', 'state']
+    if quick:
+        rng = random.Random(seed * 97 + 3)
+        words = ['event', 'signed', 'wire', 'reg', 'output', 'time'] + rng.sample(spec, 4) + rng.sample(extra, 4) + rng.sample(other, 5)
+        var_words = ['wire', 'reg'] + rng.sample(spec, 2) + rng.sample(extra, 1) + rng.sample(other, 2)
+    else:
+        words = sorted(set(spec + extra)) + other
+        var_words = sorted(set(spec + extra))[::3] + other
+    words = list(dict.fromkeys(words)); var_words = list(dict.fromkeys(var_words))
+    specs = c03_beh.generated_specs(words, var_words)
+    out = []
+    for n, kind, args in specs:
+        out.append(Case('behavioural_names:' + n, 'behavioural_names', {'case': n, 'kind': kind, 'in': args['pa'], 'en': args['pb'], 'out': args['pr'],
+                                                                         'local': args['lv'], 'state': args['sv'], 'attrs': (args['aa'], args['ar'])},
+                        lambda p, n=n, specs=specs: c03_beh.build_generated(specs, n)))
+    return out
+
+
 # ------------------------------------------------------------------------------------------------ adversarial
 def adversarial(quick):
     out = []
